@@ -16,8 +16,7 @@ import (
 func init() {
 	register(&Prop{ID: "C07", Run: runC07, NotDecided: []string{
 		"equality with a reference list over arbitrary append/rollback histories; reopen equivalence (runtime)",
-		"FetchHeaderAncestors / HeightFromHash take no lock: an index read and a file read can interleave with a rollback and then fail with an error (noted, not a rule)",
-		"blockLocatorFromHash re-enters FetchHeaderByHeight while its callers hold the read lock (recursive RLock: deadlock-prone if a writer queues in between; in neutrino reader and writer are the same goroutine; observed, no rule claims it)",
+		"interleavings of readers and writers beyond the structural conditions C07.P1 / C07.P2 (HeightFromHash reads the index alone, in one database transaction, and takes no store lock)",
 	}})
 }
 
@@ -105,6 +104,8 @@ func runC07(c *Ctx) {
 			c.verdict(len(bad) == 0 && len(sites) > 0, "store read under mtx | "+name, c.P.Pos(fn.Pos()), "index/file reads under the store lock", join(bad)+" (or no read found)", c.ats(sites)...)
 		}
 	})
+
+	c.rule("C07.P2", readsOneSectionDoc, func() { c.readsOneSection() })
 
 	c.rule("C07.O1", "a failed append leaves the store as before: in both WriteHeaders, when the index update (addHeaders / truncateIndices) fails, truncateHeaders(len(hdrs)) runs before every return", func() {
 		for _, spec := range []struct {
@@ -344,6 +345,72 @@ func runC07(c *Ctx) {
 		}
 		_ = cl
 		c.verdict(ok, construct, c.at(res), why, "the resolution of the sub-bucket is skipped behind a comparison that the not-yet-filled cache can satisfy (its start value is a possible prefix): such a header is put into a nil bucket", c.at(res))
+	})
+
+	c.rule("C07.O6", "an append that reports failure leaves the file as it was: both WriteHeaders take an error of appendRaw to mean that nothing was added and return without cutting anything off; so inside appendRaw every error return behind the Write passes a Truncate back to the length before the write, the one exception being the edge on which the Write is known to have written nothing (n > 0 is false) - a failure reported after a complete write (a failed Sync, say) leaves whole records in the file that the index knows nothing about, and the next append lands behind them", func() {
+		fn := c.fn(fnAppend)
+		wr := c.method("io", "Writer", "Write")
+		truncM := c.method("headerfs", "File", "Truncate")
+		writes := find(fn, callTo(wr))
+		construct := c.nm(fn) + " | an error return behind the Write has cut the written bytes off"
+		if len(writes) != 1 {
+			c.fail(construct, c.P.Pos(fn.Pos()), fmt.Sprintf("%d Write call(s) in appendRaw, 1 tabled", len(writes)))
+			return
+		}
+		w := writes[0].(ssa.Value)
+		// the count the Write returned, or a running total of such counts
+		// (a write issued in chunks): 0 plus counts
+		var isCount func(v ssa.Value, seen map[ssa.Value]bool) bool
+		isCount = func(v ssa.Value, seen map[ssa.Value]bool) bool {
+			v = ir.Strip(v)
+			if seen[v] {
+				return true
+			}
+			seen[v] = true
+			switch x := v.(type) {
+			case *ssa.Extract:
+				return x.Index == 0 && x.Tuple == w
+			case *ssa.BinOp:
+				return x.Op == token.ADD && isCount(x.X, seen) && isCount(x.Y, seen)
+			case *ssa.Phi:
+				for _, e := range x.Edges {
+					if k, isC := ir.ConstInt(e); isC && k == 0 {
+						continue
+					}
+					if !isCount(e, seen) {
+						return false
+					}
+				}
+				return true
+			}
+			return false
+		}
+		isN := func(v ssa.Value) bool {
+			if _, isC := v.(*ssa.Const); isC {
+				return false
+			}
+			return isCount(v, map[ssa.Value]bool{})
+		}
+		some, _ := relGuard("n > 0", fn, isN, constIntIs(0), token.GTR)
+		cut := ir.Cut{}
+		for _, s := range some.sites {
+			cut[s.br.Other()] = true
+		}
+		var bad []string
+		ir.WalkAfter(writes[0], cut, func(in ssa.Instruction) bool {
+			if callTo(truncM)(in) {
+				return false
+			}
+			if r, ok := in.(*ssa.Return); ok {
+				if !ir.IsNil(ir.Strip(ir.RetVal(r, 0))) {
+					bad = append(bad, c.at(r))
+				}
+				return false
+			}
+			return true
+		})
+		sort.Strings(bad)
+		c.verdict(len(bad) == 0, construct, c.at(writes[0]), "every failure behind the Write truncates first (or nothing was written)", "appendRaw can report failure at "+join(uniq(bad))+" with the bytes of this call still in the file: the callers do not cut them off, the index does not know them, and the next append lands behind them", c.ats(writes)...)
 	})
 
 	c.rule("C07.V4", blockLocatorDoc, func() { c.blockLocatorToGenesis() })
@@ -814,12 +881,43 @@ const rolledBackEntriesRemovedDoc = "RollbackBlockHeaders removes the index entr
 
 // rolledBackEntriesRemoved: see rolledBackEntriesRemovedDoc (C07.V2, also C02.V6).
 func (c *Ctx) rolledBackEntriesRemoved() {
-		fn := c.fn(fnBRoll)
-		ti := find(fn, callTo(c.hfs("headerIndex", "truncateIndices")))
-		bh := c.method(pWire, "BlockHeader", "BlockHash")
-		okv := len(ti) == 1
-		var elemStores []ssa.Instruction
-		ir.Instrs(fn, func(in ssa.Instruction) {
+	fn := c.fn(fnBRoll)
+	ti := find(fn, callTo(c.hfs("headerIndex", "truncateIndices")))
+	bh := c.method(pWire, "BlockHeader", "BlockHash")
+	okv := len(ti) == 1
+	var elemStores []ssa.Instruction
+	ir.Instrs(fn, func(in ssa.Instruction) {
+		st, ok := in.(*ssa.Store)
+		if !ok {
+			return
+		}
+		if _, isIdx := st.Addr.(*ssa.IndexAddr); !isIdx {
+			return
+		}
+		if al, isAl := st.Val.(*ssa.Alloc); isAl {
+			elemStores = append(elemStores, in)
+			h := ir.LoopHeaderOf(in.Block())
+			// fresh per iteration: allocated inside the same loop
+			if h == nil || ir.LoopHeaderOf(al.Block()) != h {
+				okv = false
+			}
+			// filled with the BlockHash of a header
+			filled := false
+			for _, s2 := range ir.StoresTo(al) {
+				if valIsCallTo(bh)(s2.Val) {
+					filled = true
+				}
+			}
+			if !filled {
+				okv = false
+			}
+		}
+	})
+	c.verdict(okv && len(elemStores) == 1, c.nm(fn)+" | one fresh hash cell per removed header", c.P.Pos(fn.Pos()), "per-iteration cell holding header.BlockHash()", "the hashes handed to truncateIndices are not one distinct cell per removed header (all elements alias one variable, or are not the headers' hashes): index entries of rolled-back headers survive", c.ats(elemStores)...)
+	// generic aliasing check over the module
+	var bad []string
+	for _, f := range c.P.Funcs {
+		ir.Instrs(f, func(in ssa.Instruction) {
 			st, ok := in.(*ssa.Store)
 			if !ok {
 				return
@@ -827,52 +925,21 @@ func (c *Ctx) rolledBackEntriesRemoved() {
 			if _, isIdx := st.Addr.(*ssa.IndexAddr); !isIdx {
 				return
 			}
-			if al, isAl := st.Val.(*ssa.Alloc); isAl {
-				elemStores = append(elemStores, in)
-				h := ir.LoopHeaderOf(in.Block())
-				// fresh per iteration: allocated inside the same loop
-				if h == nil || ir.LoopHeaderOf(al.Block()) != h {
-					okv = false
-				}
-				// filled with the BlockHash of a header
-				filled := false
-				for _, s2 := range ir.StoresTo(al) {
-					if valIsCallTo(bh)(s2.Val) {
-						filled = true
-					}
-				}
-				if !filled {
-					okv = false
-				}
+			al, isAl := st.Val.(*ssa.Alloc)
+			if !isAl || !al.Heap {
+				return
+			}
+			h := ir.LoopHeaderOf(in.Block())
+			if h == nil {
+				return
+			}
+			if !h.Dominates(al.Block()) || al.Block() == h && false {
+				bad = append(bad, c.nm(f)+" at "+c.at(in))
 			}
 		})
-		c.verdict(okv && len(elemStores) == 1, c.nm(fn)+" | one fresh hash cell per removed header", c.P.Pos(fn.Pos()), "per-iteration cell holding header.BlockHash()", "the hashes handed to truncateIndices are not one distinct cell per removed header (all elements alias one variable, or are not the headers' hashes): index entries of rolled-back headers survive", c.ats(elemStores)...)
-		// generic aliasing check over the module
-		var bad []string
-		for _, f := range c.P.Funcs {
-			ir.Instrs(f, func(in ssa.Instruction) {
-				st, ok := in.(*ssa.Store)
-				if !ok {
-					return
-				}
-				if _, isIdx := st.Addr.(*ssa.IndexAddr); !isIdx {
-					return
-				}
-				al, isAl := st.Val.(*ssa.Alloc)
-				if !isAl || !al.Heap {
-					return
-				}
-				h := ir.LoopHeaderOf(in.Block())
-				if h == nil {
-					return
-				}
-				if !h.Dominates(al.Block()) || al.Block() == h && false {
-					bad = append(bad, c.nm(f)+" at "+c.at(in))
-				}
-			})
-		}
-		sort.Strings(bad)
-		c.verdict(len(bad) == 0, "module | no slice element inside a loop is set to the address of a variable declared outside that loop", "", "no such aliasing", "address of a loop-invariant variable stored into slice elements inside a loop (every element aliases the same variable): "+join(bad), "all module functions")
+	}
+	sort.Strings(bad)
+	c.verdict(len(bad) == 0, "module | no slice element inside a loop is set to the address of a variable declared outside that loop", "", "no such aliasing", "address of a loop-invariant variable stored into slice elements inside a loop (every element aliases the same variable): "+join(bad), "all module functions")
 }
 
 const blockLocatorDoc = "a block locator reaches back to genesis: the walk in blockLocatorFromHash goes on until its height is 0 or the locator is full; its loop is left only on a comparison of the running height with 0, on the length of the locator reaching the message limit, or towards an error return - a walk that stops when the next (doubled) step would overshoot leaves genesis out, and a peer on another branch than all listed hashes cannot locate the fork point"
@@ -952,4 +1019,209 @@ func (c *Ctx) blockLocatorToGenesis() {
 	}
 	sort.Strings(bad)
 	c.verdict(n >= 2 && len(bad) == 0, construct, c.P.Pos(fn.Pos()), fmt.Sprintf("%d ways out of the walk: height == 0, locator full, or an error", n), join(bad), c.ats(calls)...)
+}
+
+const readsOneSectionDoc = "the index and the file are read in one step: in every function of the header stores (constructors aside: the store is not yet published) a lookup in the hash index and a read of the flat file lie in one critical section of the store mutex - both under the lock the function holds or inherits from all its callers, with no release of it in between; a method composed of two calls that each take the lock alone (height from hash, then header at height) lets a rollback or a reorganisation slip in between: the height no longer belongs to the hash, and lookups by hash, by height and of the tip disagree although every access is synchronised"
+
+// readsOneSection: see readsOneSectionDoc.
+func (c *Ctx) readsOneSection() {
+	fns := c.storeFuncs()
+	res := c.lockResults()
+	g := c.graph()
+	key := lockKey{c.field("headerfs", "headerStore", "mtx")}
+	inStore := map[*ssa.Function]bool{}
+	for _, fn := range fns {
+		inStore[fn] = true
+	}
+	const (
+		kIdx  = 1
+		kFile = 2
+	)
+	prim := func(in ssa.Instruction) int {
+		cc := ir.CallOf(in)
+		if cc == nil {
+			return 0
+		}
+		if cc.IsInvoke() {
+			n := cc.Method.Name()
+			if n != "ReadAt" && n != "Read" {
+				return 0
+			}
+			if it, ok := cc.Value.Type().Underlying().(*types.Interface); ok {
+				for i := 0; i < it.NumMethods(); i++ {
+					if it.Method(i).Name() == "Truncate" {
+						return kFile
+					}
+				}
+			}
+			return 0
+		}
+		f := cc.StaticCallee()
+		if f == nil || f.Pkg == nil {
+			return 0
+		}
+		switch {
+		case strings.HasSuffix(f.Pkg.Pkg.Path(), "/walletdb") && (f.Name() == "View" || f.Name() == "Update"):
+			return kIdx
+		case f.Pkg.Pkg.Path() == "os" && f.Signature.Recv() != nil && (f.Name() == "ReadAt" || f.Name() == "Read"):
+			return kFile
+		}
+		return 0
+	}
+	kind := map[*ssa.Function]int{}
+	for _, fn := range fns {
+		ir.Instrs(fn, func(in ssa.Instruction) { kind[fn] |= prim(in) })
+	}
+	for changed := true; changed; {
+		changed = false
+		for _, fn := range fns {
+			for _, callee := range g.out[fn] {
+				if inStore[callee] && kind[fn]|kind[callee] != kind[fn] {
+					kind[fn] |= kind[callee]
+					changed = true
+				}
+			}
+		}
+	}
+	siteKind := func(in ssa.Instruction) int {
+		if k := prim(in); k != 0 {
+			return k
+		}
+		cc := ir.CallOf(in)
+		if cc == nil {
+			return 0
+		}
+		if _, isGo := in.(*ssa.Go); isGo {
+			return 0
+		}
+		k := 0
+		cal := ir.Resolve(cc)
+		var callees []*ssa.Function
+		if cal.Fn != nil {
+			callees = c.srcFunc(cal.Fn)
+		} else if cc.IsInvoke() {
+			callees = c.implsOf(cc.Method.Origin())
+		}
+		for _, f := range callees {
+			if inStore[f] {
+				k |= kind[f]
+			}
+		}
+		return k
+	}
+	exempt := map[string]string{fnNewB: "constructor", fnNewF: "constructor", "headerfs.newHeaderStore": "constructor", "headerfs.newHeaderIndex": "constructor"}
+	// helpers reached from constructors only
+	onlyCtor := func(fn *ssa.Function) bool {
+		seen := map[*ssa.Function]bool{}
+		var up func(f *ssa.Function, d int) bool
+		up = func(f *ssa.Function, d int) bool {
+			if _, ok := exempt[c.nm(outermost(f))]; ok {
+				return true
+			}
+			if seen[f] || d > 6 {
+				return true
+			}
+			seen[f] = true
+			n := 0
+			for _, caller := range fns {
+				for _, callee := range g.out[caller] {
+					if callee == f {
+						n++
+						if !up(caller, d+1) {
+							return false
+						}
+					}
+				}
+			}
+			return n > 0
+		}
+		return up(fn, 0)
+	}
+	checked := 0
+	for _, fn := range fns {
+		if fn.Parent() != nil || kind[fn] != kIdx|kFile {
+			continue
+		}
+		construct := "index and file read in one critical section | " + c.nm(fn)
+		if why, ok := exempt[c.nm(fn)]; ok {
+			c.pass(construct, c.P.Pos(fn.Pos()), "tabled exemption: "+why)
+			continue
+		}
+		var sites, unheldIdx, unheldFile, held []ssa.Instruction
+		ir.Instrs(fn, func(in ssa.Instruction) {
+			k := siteKind(in)
+			if k == 0 {
+				return
+			}
+			if _, isDefer := in.(*ssa.Defer); isDefer {
+				return
+			}
+			sites = append(sites, in)
+			if _, ok := res[fn].mustHold[in][key]; ok {
+				held = append(held, in)
+				return
+			}
+			if k&kIdx != 0 {
+				unheldIdx = append(unheldIdx, in)
+			}
+			if k&kFile != 0 {
+				unheldFile = append(unheldFile, in)
+			}
+		})
+		split := false
+		for _, a := range unheldIdx {
+			for _, b := range unheldFile {
+				if a != b {
+					split = true
+				}
+			}
+		}
+		if len(held) > 0 && len(unheldIdx)+len(unheldFile) > 0 {
+			split = true
+		}
+		if split && onlyCtor(fn) {
+			c.pass(construct, c.P.Pos(fn.Pos()), "reached from the constructors only: the store is not yet published", c.ats(sites)...)
+			continue
+		}
+		checked++
+		var bad []string
+		if split {
+			for _, a := range unheldIdx {
+				bad = append(bad, describeCall(a)+" at "+c.at(a)+" reads the index outside the critical section")
+			}
+			for _, b := range unheldFile {
+				bad = append(bad, describeCall(b)+" at "+c.at(b)+" reads the file outside the critical section")
+			}
+		}
+		// the lock is not let go between two reads that are under it
+		cut := ir.BackEdges(fn)
+		for _, a := range held {
+			var rels []ssa.Instruction
+			ir.WalkAfter(a, cut, func(x ssa.Instruction) bool {
+				if _, isDefer := x.(*ssa.Defer); isDefer {
+					return true
+				}
+				if op, ok := c.lockOpOf(x); ok && op.known && !op.acq && !op.wait && op.key.f == key.f {
+					rels = append(rels, x)
+					return false
+				}
+				return true
+			})
+			for _, r := range rels {
+				ir.WalkAfter(r, cut, func(x ssa.Instruction) bool {
+					for _, b := range held {
+						if x == b && b != a && siteKind(a)|siteKind(b) == kIdx|kFile && siteKind(a) != siteKind(b) {
+							bad = append(bad, fmt.Sprintf("the lock is released at %s between %s at %s and %s at %s", c.at(r), describeCall(a), c.at(a), describeCall(b), c.at(b)))
+						}
+					}
+					return true
+				})
+			}
+		}
+		sort.Strings(bad)
+		c.verdict(len(bad) == 0, construct, c.P.Pos(fn.Pos()), fmt.Sprintf("%d index/file read(s), all under one hold of the store mutex (or delegated whole to one callee)", len(sites)), join(uniq(bad)), c.ats(sites)...)
+	}
+	if checked < 8 {
+		c.undecided("index and file read in one critical section | floor", "", fmt.Sprintf("found %d store functions that read both the index and the file, need 8", checked))
+	}
 }
